@@ -248,7 +248,8 @@ def body_graph_cluster(case, rec):
     akey = ATTR_KEY if kind is not None else None
 
     data = entries(graphs, rk, kind)
-    out = GraphCluster().fit(data, rule_key=rk, attribute_key=akey)
+    shared = GraphCluster()  # one object for both fits: the second result must not depend on the first
+    out = shared.fit(data, rule_key=rk, attribute_key=akey)
     if out is None or len(out) != len(graphs) or [e.get("idx") for e in out] != list(range(len(graphs))):
         raise Violation("fit-shape", "GraphCluster.fit did not return the entries in the given order")
     got = partition_from_classes(_classes(out, "GraphCluster.fit"))
@@ -258,7 +259,7 @@ def body_graph_cluster(case, rec):
     # list order must not matter
     perm = _order(case, len(graphs))
     data2 = entries([graphs[i] for i in perm], rk, kind)
-    out2 = GraphCluster().fit(data2, rule_key=rk, attribute_key=akey)
+    out2 = (shared if case.get("reuse", True) else GraphCluster()).fit(data2, rule_key=rk, attribute_key=akey)
     cl2 = _classes(out2, "GraphCluster.fit (second order)")
     back = [None] * len(graphs)
     for pos, i in enumerate(perm):
